@@ -13,6 +13,7 @@ mod e_nodemgmt;
 mod e_handshake;
 mod e_renew;
 mod e_locks;
+mod e_services;
 
 use serde_json::Value;
 use std::io::{BufRead, BufReader, BufWriter, Write};
@@ -50,6 +51,7 @@ fn run_case(engine: &str, case: &Value, out: &mut Obs) {
         "handshake" => e_handshake::run_case(case, out),
         "renew" => e_renew::run_case(case, out),
         "locks" => e_locks::run_case(case, out),
+        "services" => e_services::run_case(case, out),
         _ => {
             eprintln!("unknown engine {}", engine);
             std::process::exit(2);
